@@ -246,20 +246,22 @@ theorem step_inv {ph : Phys} {p : Params ℝ} {n : Nat} {lo0 hi : ℝ} (st : Sta
   exact ⟨fun i v h => (key i v h).1, fun i v h => (key i v h).2⟩
 
 /-- the invariant along a trajectory for a non-increasing shelf profile `l` within `[lo0, hi]`:
-column 0 is within `[lo, hi]`, column `j+1` within `[l[j], hi]` -/
-theorem traj_inv {ph : Phys} {p : Params ℝ} {n : Nat} {lo0 hi : ℝ} (st : Stable ph p n lo0 hi)
+column 0 is within `[lo, hi]`, column `j+1` within `[l[j], hi]`. The side condition is required
+only for the source states of the steps before column `J` and may use the invariant of that
+state (size, admissibility, lower bound not below the shelf temperature of the step). -/
+theorem traj_inv_gen {ph : Phys} {p : Params ℝ} {n : Nat} {lo0 hi : ℝ} (st : Stable ph p n lo0 hi)
     (kCN : Nat) (l : List ℝ) (hchain : l.IsChain (fun a b => b ≤ a))
     (hl : ∀ x ∈ l, lo0 ≤ x ∧ x ≤ hi) (k : Nat) (s : State ℝ) (lo : ℝ) (hs : s.vials.size = n)
-    (hinv : AdmState ph lo hi s) (hhead : ∀ x ∈ l.head?, x ≤ lo)
-    (hside : ∀ (j : Nat) (sj : State ℝ) (T : ℝ), (trajList p kCN k l s)[j]? = some sj → l[j]? = some T →
-      SideCond ph p sj T) :
-    ∀ (j : Nat) (sj : State ℝ), (trajList p kCN k l s)[j]? = some sj →
+    (hinv : AdmState ph lo hi s) (hhead : ∀ x ∈ l.head?, x ≤ lo) (J : Nat)
+    (hside : ∀ (j : Nat) (sj : State ℝ) (T lo' : ℝ), (trajList p kCN k l s)[j]? = some sj → l[j]? = some T →
+      j < J → sj.vials.size = n → AdmState ph lo' hi sj → T ≤ lo' → SideCond ph p sj T) :
+    ∀ (j : Nat) (sj : State ℝ), (trajList p kCN k l s)[j]? = some sj → j ≤ J →
       sj.vials.size = n ∧ ∀ b : ℝ, (j = 0 → b = lo) → (∀ j' : Nat, j = j' + 1 → l[j']? = some b) →
         AdmState ph b hi sj := by
-  induction l generalizing k s lo with
+  induction l generalizing k s lo J with
   | nil => intro j sj h; simp [trajList] at h
   | cons T r ih =>
-    intro j sj hj
+    intro j sj hj hjJ
     cases j with
     | zero =>
       simp only [trajList, List.getElem?_cons_zero, Option.some.injEq] at hj
@@ -270,7 +272,8 @@ theorem traj_inv {ph : Phys} {p : Params ℝ} {n : Nat} {lo0 hi : ℝ} (st : Sta
       simp only [trajList, List.getElem?_cons_succ] at hj
       have hTb := hl T (by simp)
       have hTlo : T ≤ lo := hhead T (by simp)
-      have hsc : SideCond ph p s T := hside 0 s T (by simp [trajList]) (by simp)
+      have hsc : SideCond ph p s T :=
+        hside 0 s T lo (by simp [trajList]) (by simp) (by omega) hs hinv hTlo
       have hstep : AdmState ph T hi (step p kCN k T s) :=
         step_inv st (k == kCN) k T lo s hs hinv hTb.1 hTlo hTb.2 hsc
       have hsize : (step p kCN k T s).vials.size = n := by simp [step, hs]
@@ -286,12 +289,13 @@ theorem traj_inv {ph : Phys} {p : Params ℝ} {n : Nat} {lo0 hi : ℝ} (st : Sta
           simp only [List.head?_cons, Option.mem_def, Option.some.injEq] at hx
           subst hx
           exact (List.isChain_cons_cons.mp hchain).1
-      have hside' : ∀ (j : Nat) (sj : State ℝ) (T' : ℝ), (trajList p kCN (k + 1) r (step p kCN k T s))[j]? = some sj →
-          r[j]? = some T' → SideCond ph p sj T' := by
-        intro j sj T' h1 h2
-        exact hside (j + 1) sj T' (by simpa [trajList] using h1) (by simpa using h2)
+      have hside' : ∀ (j : Nat) (sj : State ℝ) (T' lo' : ℝ),
+          (trajList p kCN (k + 1) r (step p kCN k T s))[j]? = some sj → r[j]? = some T' → j < J - 1 →
+          sj.vials.size = n → AdmState ph lo' hi sj → T' ≤ lo' → SideCond ph p sj T' := by
+        intro j sj T' lo' h1 h2 h3 h4 h5 h6
+        exact hside (j + 1) sj T' lo' (by simpa [trajList] using h1) (by simpa using h2) (by omega) h4 h5 h6
       have := ih hchain' (fun x hx => hl x (by simp [hx])) (k + 1) (step p kCN k T s) T hsize
-        hstep hhead' hside' j' sj hj
+        hstep hhead' (J - 1) hside' j' sj hj (by omega)
       refine ⟨this.1, fun b _ hb => ?_⟩
       have hb' := hb j' rfl
       apply this.2 b
@@ -302,20 +306,25 @@ theorem traj_inv {ph : Phys} {p : Params ℝ} {n : Nat} {lo0 hi : ℝ} (st : Sta
         subst hj''
         simpa using hb'
 
-/-- **run invariant (partial)**: for a well-formed cooling program, inside the stable range
+/-- **run invariant, general form**: the conclusions of `run_admissible_partial` for the columns
+`j ≤ J`, requiring the side condition only for the source states of the steps before column `J`,
+where it may be derived from that state's invariant (size, admissibility, all temperatures in
+`[lo', hi]` with the shelf temperature of the step `≤ lo'`). All special cases below are
+instances. For a well-formed cooling program, inside the stable range
 (`lo0` = end temperature, `hi` ≥ initial vial temperature, start temperature and `T_eq_l`),
 vials starting no colder than the shelf, and the side condition at every step: in every
 recorded column every vial has `σ = 0` and no recorded nucleation, or `0 < σ < 1`, sits on the
 curve (hence below `T_eq_l`) and has a recorded nucleation; every temperature is at most `hi`,
 and at least the shelf temperature applied in the previous step (= the coldest so far, the
 profile never rises; column 0: at least the start temperature). -/
-theorem run_admissible_partial {ph : Phys} (inp : Inputs ℝ) (kCN : Nat) (hi : ℝ)
+theorem run_admissible_gen {ph : Phys} (inp : Inputs ℝ) (kCN : Nat) (hi : ℝ) (J : Nat)
     (hwf : Snow.C05.WF inp.oc inp.p.dt)
     (st : Stable ph inp.p inp.nVials inp.oc.stop hi)
     (hT0 : inp.oc.start ≤ inp.T0) (hT0hi : inp.T0 ≤ hi) (hstart : inp.oc.start ≤ hi)
-    (hside : ∀ (j : Nat) (sj : State ℝ) (T : ℝ), (runWith inp kCN).traj[j]? = some sj →
-      (runWith inp kCN).Tshelf[j]? = some T → SideCond ph inp.p sj T) :
-    ∀ (j : Nat) (sj : State ℝ), (runWith inp kCN).traj[j]? = some sj →
+    (hside : ∀ (j : Nat) (sj : State ℝ) (T lo' : ℝ), (runWith inp kCN).traj[j]? = some sj →
+      (runWith inp kCN).Tshelf[j]? = some T → j < J → sj.vials.size = inp.nVials →
+      AdmState ph lo' hi sj → T ≤ lo' → SideCond ph inp.p sj T) :
+    ∀ (j : Nat) (sj : State ℝ), (runWith inp kCN).traj[j]? = some sj → j ≤ J →
       ∀ (i : Nat) (v : Vial ℝ), sj.vials[i]? = some v →
       Adm ph v ∧ v.T ≤ hi ∧ (j = 0 → inp.oc.start ≤ v.T) ∧
       (∀ (j' : Nat) (T : ℝ), j = j' + 1 → (runWith inp kCN).Tshelf[j']? = some T → T ≤ v.T) := by
@@ -348,8 +357,8 @@ theorem run_admissible_partial {ph : Phys} (inp : Inputs ℝ) (kCN : Nat) (hi : 
     simp only [Option.mem_def, Option.some.injEq] at hx
     rw [← hx]
   have hsz : (init inp).vials.size = inp.nVials := by simp [init]
-  intro j sj hj i v hv
-  have := traj_inv st kCN _ hchain hl 0 (init inp) inp.oc.start hsz hinit hhead hside j sj hj
+  intro j sj hj hjJ i v hv
+  have := traj_inv_gen st kCN _ hchain hl 0 (init inp) inp.oc.start hsz hinit hhead J hside j sj hj hjJ
   cases j with
   | zero =>
     have hI := this.2 inp.oc.start (fun _ => rfl) (fun j' h => by omega)
@@ -379,6 +388,26 @@ theorem run_admissible_partial {ph : Phys} (inp : Inputs ℝ) (kCN : Nat) (hi : 
       simp only [Option.some.injEq] at hT'
       rw [← hT']
       exact (hI.bnd i v hv).1
+
+/-- **run invariant (partial)**: for a well-formed cooling program, inside the stable range
+(`lo0` = end temperature, `hi` ≥ initial vial temperature, start temperature and `T_eq_l`),
+vials starting no colder than the shelf, and the side condition at every step: in every
+recorded column every vial has `σ = 0` and no recorded nucleation, or `0 < σ < 1`, sits on the
+curve (hence below `T_eq_l`) and has a recorded nucleation; every temperature is at most `hi`,
+and at least the shelf temperature applied in the previous step (= the coldest so far, the
+profile never rises; column 0: at least the start temperature). -/
+theorem run_admissible_partial {ph : Phys} (inp : Inputs ℝ) (kCN : Nat) (hi : ℝ)
+    (hwf : Snow.C05.WF inp.oc inp.p.dt)
+    (st : Stable ph inp.p inp.nVials inp.oc.stop hi)
+    (hT0 : inp.oc.start ≤ inp.T0) (hT0hi : inp.T0 ≤ hi) (hstart : inp.oc.start ≤ hi)
+    (hside : ∀ (j : Nat) (sj : State ℝ) (T : ℝ), (runWith inp kCN).traj[j]? = some sj →
+      (runWith inp kCN).Tshelf[j]? = some T → SideCond ph inp.p sj T) :
+    ∀ (j : Nat) (sj : State ℝ), (runWith inp kCN).traj[j]? = some sj →
+      ∀ (i : Nat) (v : Vial ℝ), sj.vials[i]? = some v →
+      Adm ph v ∧ v.T ≤ hi ∧ (j = 0 → inp.oc.start ≤ v.T) ∧
+      (∀ (j' : Nat) (T : ℝ), j = j' + 1 → (runWith inp kCN).Tshelf[j']? = some T → T ≤ v.T) :=
+  fun j sj hj => run_admissible_gen inp kCN hi j hwf st hT0 hT0hi hstart
+    (fun j' sj' T _ h1 h2 _ _ _ _ => hside j' sj' T h1 h2) j sj hj (le_refl j)
 
 /-- **ice exactly from the recorded nucleation onwards** (one step): a vial that contains ice
 keeps its recorded nucleation time and temperature and keeps ice under the hypotheses of
@@ -764,21 +793,22 @@ and below `T_eq_l`; no vial is warmer than `hi` (any bound with `T_k_0, T_sh(0),
 in particular their maximum); no vial is colder than the COLDEST shelf temperature applied so
 far — for column `j ≥ 1` that is `T_shelf[j−1]`, which is `≤` every earlier shelf sample because
 the program never rises (C05); column 0 is not colder than the start temperature. -/
-theorem run_bounds_partial {ph : Phys} (inp : Inputs ℝ) (kCN : Nat) (hi : ℝ)
+theorem run_bounds_gen {ph : Phys} (inp : Inputs ℝ) (kCN : Nat) (hi : ℝ) (J : Nat)
     (hwf : Snow.C05.WF inp.oc inp.p.dt)
     (st : Stable ph inp.p inp.nVials inp.oc.stop hi)
     (hT0 : inp.oc.start ≤ inp.T0) (hT0hi : inp.T0 ≤ hi) (hstart : inp.oc.start ≤ hi)
-    (hside : ∀ (j : Nat) (sj : State ℝ) (T : ℝ), (runWith inp kCN).traj[j]? = some sj →
-      (runWith inp kCN).Tshelf[j]? = some T → SideCond ph inp.p sj T) :
-    ∀ (j : Nat) (sj : State ℝ), (runWith inp kCN).traj[j]? = some sj →
+    (hside : ∀ (j : Nat) (sj : State ℝ) (T lo' : ℝ), (runWith inp kCN).traj[j]? = some sj →
+      (runWith inp kCN).Tshelf[j]? = some T → j < J → sj.vials.size = inp.nVials →
+      AdmState ph lo' hi sj → T ≤ lo' → SideCond ph inp.p sj T) :
+    ∀ (j : Nat) (sj : State ℝ), (runWith inp kCN).traj[j]? = some sj → j ≤ J →
       ∀ (i : Nat) (v : Vial ℝ), sj.vials[i]? = some v →
       (0 ≤ v.sigma ∧ v.sigma < 1) ∧
       (v.sigma ≠ 0 → v.T = ph.curve v.sigma ∧ v.T < ph.TeqL) ∧
       v.T ≤ hi ∧ (j = 0 → inp.oc.start ≤ v.T) ∧
       (∀ (j' : Nat) (T : ℝ), j = j' + 1 → (runWith inp kCN).Tshelf[j']? = some T →
         T ≤ v.T ∧ ∀ (j'' : Nat) (T'' : ℝ), j'' ≤ j' → (runWith inp kCN).Tshelf[j'']? = some T'' → T ≤ T'') := by
-  intro j sj hj i v hv
-  obtain ⟨hA, hhi, h0, hlow⟩ := run_admissible_partial inp kCN hi hwf st hT0 hT0hi hstart hside j sj hj i v hv
+  intro j sj hj hjJ i v hv
+  obtain ⟨hA, hhi, h0, hlow⟩ := run_admissible_gen inp kCN hi J hwf st hT0 hT0hi hstart hside j sj hj hjJ i v hv
   have hTsh : (runWith inp kCN).Tshelf = profile inp.oc inp.p.dt := rfl
   have hchain : (profile inp.oc inp.p.dt).IsChain (fun a b => b ≤ a) :=
     (Snow.C05.profile_good inp.oc inp.p.dt hwf).1.imp (fun _ _ h => h.1)
@@ -795,6 +825,23 @@ theorem run_bounds_partial {ph : Phys} (inp : Inputs ℝ) (kCN : Nat) (hi : ℝ)
     rw [hTsh] at hT hT''
     obtain ⟨d, rfl⟩ : ∃ d, j' = j'' + d := ⟨j' - j'', by omega⟩
     exact chain_antitone _ hchain j'' d T'' T hT'' hT
+
+/-- `run_bounds_gen` with the side condition assumed at every step (PARTIAL) -/
+theorem run_bounds_partial {ph : Phys} (inp : Inputs ℝ) (kCN : Nat) (hi : ℝ)
+    (hwf : Snow.C05.WF inp.oc inp.p.dt)
+    (st : Stable ph inp.p inp.nVials inp.oc.stop hi)
+    (hT0 : inp.oc.start ≤ inp.T0) (hT0hi : inp.T0 ≤ hi) (hstart : inp.oc.start ≤ hi)
+    (hside : ∀ (j : Nat) (sj : State ℝ) (T : ℝ), (runWith inp kCN).traj[j]? = some sj →
+      (runWith inp kCN).Tshelf[j]? = some T → SideCond ph inp.p sj T) :
+    ∀ (j : Nat) (sj : State ℝ), (runWith inp kCN).traj[j]? = some sj →
+      ∀ (i : Nat) (v : Vial ℝ), sj.vials[i]? = some v →
+      (0 ≤ v.sigma ∧ v.sigma < 1) ∧
+      (v.sigma ≠ 0 → v.T = ph.curve v.sigma ∧ v.T < ph.TeqL) ∧
+      v.T ≤ hi ∧ (j = 0 → inp.oc.start ≤ v.T) ∧
+      (∀ (j' : Nat) (T : ℝ), j = j' + 1 → (runWith inp kCN).Tshelf[j']? = some T →
+        T ≤ v.T ∧ ∀ (j'' : Nat) (T'' : ℝ), j'' ≤ j' → (runWith inp kCN).Tshelf[j'']? = some T'' → T ≤ T'') :=
+  fun j sj hj => run_bounds_gen inp kCN hi j hwf st hT0 hT0hi hstart
+    (fun j' sj' T _ h1 h2 _ _ _ _ => hside j' sj' T h1 h2) j sj hj (le_refl j)
 
 /-! ### non-vacuity -/
 
@@ -897,6 +944,212 @@ theorem sideCond_witness :
   rw [hsg, ex_m, hdt, hL]
   have := hb.2
   norm_num at this ⊢
+  linarith
+
+/-! ### where the side condition is NOT needed -/
+
+/-- **unconditional up to and including the first column that contains ice**: if the columns
+before column `J` contain no ice (e.g. `J` = the first column with ice), the admissibility and
+bound clauses hold for all columns `j ≤ J` with NO side condition — the steps that produce them
+start from ice-free states. -/
+theorem run_admissible_until_first_nucleation {ph : Phys} (inp : Inputs ℝ) (kCN : Nat) (hi : ℝ) (J : Nat)
+    (hwf : Snow.C05.WF inp.oc inp.p.dt)
+    (st : Stable ph inp.p inp.nVials inp.oc.stop hi)
+    (hT0 : inp.oc.start ≤ inp.T0) (hT0hi : inp.T0 ≤ hi) (hstart : inp.oc.start ≤ hi)
+    (hliq : ∀ (j : Nat) (sj : State ℝ), (runWith inp kCN).traj[j]? = some sj → j < J →
+      ∀ (i : Nat) (v : Vial ℝ), sj.vials[i]? = some v → v.sigma = 0) :
+    ∀ (j : Nat) (sj : State ℝ), (runWith inp kCN).traj[j]? = some sj → j ≤ J →
+      ∀ (i : Nat) (v : Vial ℝ), sj.vials[i]? = some v →
+      (0 ≤ v.sigma ∧ v.sigma < 1) ∧
+      (v.sigma ≠ 0 → v.T = ph.curve v.sigma ∧ v.T < ph.TeqL) ∧
+      v.T ≤ hi ∧ (j = 0 → inp.oc.start ≤ v.T) ∧
+      (∀ (j' : Nat) (T : ℝ), j = j' + 1 → (runWith inp kCN).Tshelf[j']? = some T →
+        T ≤ v.T ∧ ∀ (j'' : Nat) (T'' : ℝ), j'' ≤ j' → (runWith inp kCN).Tshelf[j'']? = some T'' → T ≤ T'') :=
+  run_bounds_gen inp kCN hi J hwf st hT0 hT0hi hstart
+    (fun j sj T _ h1 _ h3 _ _ _ => sideCond_of_liquid ph inp.p sj T (hliq j sj h1 h3))
+
+/-- an ice-containing vial whose contacts (neighbours, shelf = surroundings) are all at or below
+`T_eq_l` cannot receive more heat in a step than its ice absorbs, under the STATIC condition
+`Δt·Hsum·(T_m − lo) ≤ m·λ(1−w_s)` (`lo` a lower bound of the vial's temperature) -/
+theorem side_of_contacts_below_liquidus {ph : Phys} {p : Params ℝ} {n : Nat} {lo0 hi : ℝ}
+    (st : Stable ph p n lo0 hi) (i : Nat) (hi' : i < n) (Ts : Array ℝ) (Tsh lo σ : ℝ)
+    (h0 : 0 < σ) (h1 : σ < 1) (hTi : Ts.getD i 0 = ph.curve σ) (hlo : lo ≤ ph.curve σ)
+    (hn : ∀ j ∈ p.nbrs.getD i [], lo ≤ Ts.getD j 0 ∧ Ts.getD j 0 ≤ ph.TeqL)
+    (hsh : lo ≤ Tsh ∧ Tsh ≤ ph.TeqL)
+    (hstat : p.dt * Hsum p i * (ph.T_m - lo) ≤ ph.m * (ph.lam * (1 - ph.w_s))) :
+    heatFlow p Ts Tsh Tsh i * p.dt ≤ σ * ph.m * (ph.lam * (1 - ph.w_s)) := by
+  have hv := st.valid
+  have hD := hv.D_pos
+  have hH := Hsum_nonneg p i (st.coeff i hi')
+  have hq := (heatFlow_bounds p Ts Tsh Tsh lo ph.TeqL i (st.coeff i hi') hn hsh hsh).2
+  rw [hTi] at hq
+  have ha : 0 < 1 - σ := by linarith
+  -- T_eq_l − curve σ = D σ/(1−σ)
+  have hX : ph.TeqL - ph.curve σ = ph.D * σ / (1 - σ) := by
+    unfold Phys.TeqL Phys.curve; field_simp; ring
+  -- D/(1−σ) ≤ T_m − lo
+  have hG : ph.D / (1 - σ) ≤ ph.T_m - lo := by
+    have : ph.curve σ = ph.T_m - ph.D / (1 - σ) := by unfold Phys.curve; ring
+    rw [this] at hlo; linarith
+  have hdt := st.dt_pos
+  have h2 : p.dt * Hsum p i * (ph.D / (1 - σ)) ≤ ph.m * (ph.lam * (1 - ph.w_s)) :=
+    le_trans (mul_le_mul_of_nonneg_left hG (mul_nonneg (le_of_lt hdt) hH)) hstat
+  have h3 : heatFlow p Ts Tsh Tsh i * p.dt ≤ Hsum p i * (ph.D * σ / (1 - σ)) * p.dt := by
+    rw [hX] at hq
+    exact mul_le_mul_of_nonneg_right hq (le_of_lt hdt)
+  have h4 : Hsum p i * (ph.D * σ / (1 - σ)) * p.dt = σ * (p.dt * Hsum p i * (ph.D / (1 - σ))) := by
+    field_simp
+  rw [h4] at h3
+  have h5 := mul_le_mul_of_nonneg_left h2 (le_of_lt h0)
+  calc heatFlow p Ts Tsh Tsh i * p.dt ≤ σ * (p.dt * Hsum p i * (ph.D / (1 - σ))) := h3
+    _ ≤ σ * (ph.m * (ph.lam * (1 - ph.w_s))) := h5
+    _ = σ * ph.m * (ph.lam * (1 - ph.w_s)) := by ring
+
+/-- the STATIC part of the sufficient condition -/
+def StaticSide (ph : Phys) (p : Params ℝ) (n : Nat) (lo0 : ℝ) : Prop :=
+  ∀ i, i < n → p.dt * Hsum p i * (ph.T_m - lo0) ≤ ph.m * (ph.lam * (1 - ph.w_s))
+
+/-- what REMAINS to be monitored once `StaticSide` holds: a warmed ice-containing vial has no
+contact (neighbour or shelf) warmer than `T_eq_l` -/
+def ContactsBelow (ph : Phys) (p : Params ℝ) (s : State ℝ) (Tsh : ℝ) : Prop :=
+  ∀ (i : Nat) (v : Vial ℝ), s.vials[i]? = some v → v.sigma ≠ 0 → 0 < heatFlow p (temps s) Tsh Tsh i →
+    Tsh ≤ ph.TeqL ∧ ∀ j ∈ p.nbrs.getD i [], (temps s).getD j 0 ≤ ph.TeqL
+
+/-- `SideCond` from the state invariant, `StaticSide` and `ContactsBelow` -/
+theorem sideCond_of_contacts {ph : Phys} {p : Params ℝ} {n : Nat} {lo0 hi : ℝ} (st : Stable ph p n lo0 hi)
+    (hstat : StaticSide ph p n lo0) (s : State ℝ) (Tsh lo : ℝ) (hs : s.vials.size = n)
+    (hinv : AdmState ph lo hi s) (hT1 : lo0 ≤ Tsh) (hT2 : Tsh ≤ lo)
+    (hc : ContactsBelow ph p s Tsh) : SideCond ph p s Tsh := by
+  intro i v hv hσ hq
+  have hi' : i < n := by
+    rw [← hs]
+    by_contra hcon
+    have : s.vials[i]? = none := Array.getElem?_eq_none (not_lt.mp hcon)
+    rw [this] at hv; exact absurd hv (by simp)
+  obtain ⟨h0, h1, hT, _⟩ := adm_solid (hinv.adm i v hv) hσ
+  obtain ⟨hcs, hcn⟩ := hc i v hv hσ hq
+  have hn : ∀ j ∈ p.nbrs.getD i [], Tsh ≤ (temps s).getD j 0 ∧ (temps s).getD j 0 ≤ ph.TeqL := by
+    intro j hj
+    have hjn : j < s.vials.size := by rw [hs]; exact st.nbr_lt i hi' j hj
+    have hj' : s.vials[j]? = some s.vials[j] := Array.getElem?_eq_getElem hjn
+    refine ⟨?_, hcn j hj⟩
+    rw [temps_getD s j _ 0 hj']
+    exact le_trans hT2 (hinv.bnd j _ hj').1
+  have hm : 0 ≤ ph.m * (ph.lam * (1 - ph.w_s)) := by
+    have := st.valid.m_pos; have := st.valid.lam_pos; have := st.valid.w_lt
+    have : 0 < 1 - ph.w_s := by linarith
+    positivity
+  have hstat' : p.dt * Hsum p i * (ph.T_m - Tsh) ≤ ph.m * (ph.lam * (1 - ph.w_s)) := by
+    have hH := Hsum_nonneg p i (st.coeff i hi')
+    have : p.dt * Hsum p i * (ph.T_m - Tsh) ≤ p.dt * Hsum p i * (ph.T_m - lo0) :=
+      mul_le_mul_of_nonneg_left (by linarith) (mul_nonneg (le_of_lt st.dt_pos) hH)
+    exact le_trans this (hstat i hi')
+  have := side_of_contacts_below_liquidus st i hi' (temps s) Tsh Tsh v.sigma h0 h1
+    (by rw [temps_getD s i v 0 hv, hT]) (by rw [← hT]; exact le_trans hT2 (hinv.bnd i v hv).1)
+    hn ⟨le_refl _, hcs⟩ hstat'
+  exact this
+
+/-- **run invariant with the weaker, interpretable monitored hypothesis**: under `StaticSide`
+(a static inequality of the inputs) it suffices that no warmed ice-containing vial has a contact
+above `T_eq_l` (`ContactsBelow`) — the only way the side condition can fail. -/
+theorem run_bounds_contacts_partial {ph : Phys} (inp : Inputs ℝ) (kCN : Nat) (hi : ℝ)
+    (hwf : Snow.C05.WF inp.oc inp.p.dt)
+    (st : Stable ph inp.p inp.nVials inp.oc.stop hi)
+    (hstat : StaticSide ph inp.p inp.nVials inp.oc.stop)
+    (hT0 : inp.oc.start ≤ inp.T0) (hT0hi : inp.T0 ≤ hi) (hstart : inp.oc.start ≤ hi)
+    (hc : ∀ (j : Nat) (sj : State ℝ) (T : ℝ), (runWith inp kCN).traj[j]? = some sj →
+      (runWith inp kCN).Tshelf[j]? = some T → ContactsBelow ph inp.p sj T) :
+    ∀ (j : Nat) (sj : State ℝ), (runWith inp kCN).traj[j]? = some sj →
+      ∀ (i : Nat) (v : Vial ℝ), sj.vials[i]? = some v →
+      (0 ≤ v.sigma ∧ v.sigma < 1) ∧
+      (v.sigma ≠ 0 → v.T = ph.curve v.sigma ∧ v.T < ph.TeqL) ∧
+      v.T ≤ hi ∧ (j = 0 → inp.oc.start ≤ v.T) ∧
+      (∀ (j' : Nat) (T : ℝ), j = j' + 1 → (runWith inp kCN).Tshelf[j']? = some T →
+        T ≤ v.T ∧ ∀ (j'' : Nat) (T'' : ℝ), j'' ≤ j' → (runWith inp kCN).Tshelf[j'']? = some T'' → T ≤ T'') := by
+  intro j sj hj
+  have hprof : ∀ (j : Nat) (T : ℝ), (runWith inp kCN).Tshelf[j]? = some T → inp.oc.stop ≤ T := by
+    intro j T hT
+    have : T ∈ profile inp.oc inp.p.dt := List.mem_of_getElem? hT
+    exact ((Snow.C05.profile_good inp.oc inp.p.dt hwf).2.1 T this).1
+  exact run_bounds_gen inp kCN hi j hwf st hT0 hT0hi hstart
+    (fun j' sj' T lo' h1 h2 _ h4 h5 h6 =>
+      sideCond_of_contacts st hstat sj' T lo' h4 h5 (hprof j' T h2) h6 (hc j' sj' T h1 h2)) j sj hj (le_refl j)
+
+/-- **unconditional for a process that starts at or below the liquidus** (`T_k_0 ≤ T_eq_l`,
+shelf start `≤ T_eq_l`, i.e. `hi = T_eq_l`) under `StaticSide`: every contact of every vial is
+then at or below `T_eq_l` in every column, so the side condition is a consequence of the
+invariant and NOTHING is monitored. -/
+theorem run_bounds_below_liquidus {ph : Phys} (inp : Inputs ℝ) (kCN : Nat)
+    (hwf : Snow.C05.WF inp.oc inp.p.dt)
+    (st : Stable ph inp.p inp.nVials inp.oc.stop ph.TeqL)
+    (hstat : StaticSide ph inp.p inp.nVials inp.oc.stop)
+    (hT0 : inp.oc.start ≤ inp.T0) (hT0hi : inp.T0 ≤ ph.TeqL) (hstart : inp.oc.start ≤ ph.TeqL) :
+    ∀ (j : Nat) (sj : State ℝ), (runWith inp kCN).traj[j]? = some sj →
+      ∀ (i : Nat) (v : Vial ℝ), sj.vials[i]? = some v →
+      (0 ≤ v.sigma ∧ v.sigma < 1) ∧
+      (v.sigma ≠ 0 → v.T = ph.curve v.sigma ∧ v.T < ph.TeqL) ∧
+      v.T ≤ ph.TeqL ∧ (j = 0 → inp.oc.start ≤ v.T) ∧
+      (∀ (j' : Nat) (T : ℝ), j = j' + 1 → (runWith inp kCN).Tshelf[j']? = some T →
+        T ≤ v.T ∧ ∀ (j'' : Nat) (T'' : ℝ), j'' ≤ j' → (runWith inp kCN).Tshelf[j'']? = some T'' → T ≤ T'') := by
+  intro j sj hj
+  have hprof : ∀ (j : Nat) (T : ℝ), (runWith inp kCN).Tshelf[j]? = some T →
+      inp.oc.stop ≤ T ∧ T ≤ ph.TeqL := by
+    intro j T hT
+    have : T ∈ profile inp.oc inp.p.dt := List.mem_of_getElem? hT
+    have hb := (Snow.C05.profile_good inp.oc inp.p.dt hwf).2.1 T this
+    exact ⟨hb.1, le_trans hb.2 hstart⟩
+  refine run_bounds_gen inp kCN ph.TeqL j hwf st hT0 hT0hi hstart ?_ j sj hj (le_refl j)
+  intro j' sj' T lo' _ h2 _ h4 h5 h6
+  apply sideCond_of_contacts st hstat sj' T lo' h4 h5 (hprof j' T h2).1 h6
+  intro i v hv _ _
+  refine ⟨(hprof j' T h2).2, fun jn hjn => ?_⟩
+  have hi' : i < inp.nVials := by
+    rw [← h4]
+    by_contra hcon
+    have : sj'.vials[i]? = none := Array.getElem?_eq_none (not_lt.mp hcon)
+    rw [this] at hv; exact absurd hv (by simp)
+  have hjn' : jn < sj'.vials.size := by rw [h4]; exact st.nbr_lt i hi' jn hjn
+  have hj' : sj'.vials[jn]? = some sj'.vials[jn] := Array.getElem?_eq_getElem hjn'
+  rw [temps_getD sj' jn _ 0 hj']
+  exact (h5.bnd jn _ hj').2
+
+/-- **unconditional for thermally uncoupled vials** (`k_int·A = 0`): a vial then exchanges heat
+only with shelf and surroundings, which are never warmer than the vial (lower-bound invariant),
+so no vial is ever warmed and the side condition is vacuous. -/
+theorem run_bounds_uncoupled {ph : Phys} (inp : Inputs ℝ) (kCN : Nat) (hi : ℝ)
+    (hwf : Snow.C05.WF inp.oc inp.p.dt)
+    (st : Stable ph inp.p inp.nVials inp.oc.stop hi)
+    (hk : inp.p.kInt * inp.p.A = 0)
+    (hT0 : inp.oc.start ≤ inp.T0) (hT0hi : inp.T0 ≤ hi) (hstart : inp.oc.start ≤ hi) :
+    ∀ (j : Nat) (sj : State ℝ), (runWith inp kCN).traj[j]? = some sj →
+      ∀ (i : Nat) (v : Vial ℝ), sj.vials[i]? = some v →
+      (0 ≤ v.sigma ∧ v.sigma < 1) ∧
+      (v.sigma ≠ 0 → v.T = ph.curve v.sigma ∧ v.T < ph.TeqL) ∧
+      v.T ≤ hi ∧ (j = 0 → inp.oc.start ≤ v.T) ∧
+      (∀ (j' : Nat) (T : ℝ), j = j' + 1 → (runWith inp kCN).Tshelf[j']? = some T →
+        T ≤ v.T ∧ ∀ (j'' : Nat) (T'' : ℝ), j'' ≤ j' → (runWith inp kCN).Tshelf[j'']? = some T'' → T ≤ T'') := by
+  intro j sj hj
+  refine run_bounds_gen inp kCN hi j hwf st hT0 hT0hi hstart ?_ j sj hj (le_refl j)
+  intro j' sj' T lo' _ _ _ h4 h5 h6 i v hv _ hq
+  exfalso
+  have hi' : i < inp.nVials := by
+    rw [← h4]
+    by_contra hcon
+    have : sj'.vials[i]? = none := Array.getElem?_eq_none (not_lt.mp hcon)
+    rw [this] at hv; exact absurd hv (by simp)
+  have hco := st.coeff i hi'
+  rw [heatFlow_eq] at hq
+  have hq0 : qPair inp.p (temps sj') i = 0 := by
+    unfold qPair
+    apply List.sum_eq_zero
+    intro x hx
+    obtain ⟨jn, _, rfl⟩ := List.mem_map.mp hx
+    rw [hk]; ring
+  have hTi : (temps sj').getD i 0 = v.T := temps_getD sj' i v 0 hv
+  have hle : T - v.T ≤ 0 := by have := (h5.bnd i v hv).1; linarith
+  rw [hq0, hTi] at hq
+  have e1 := mul_nonpos_of_nonneg_of_nonpos hco.ext hle
+  have e2 := mul_nonpos_of_nonneg_of_nonpos hco.shelf hle
   linarith
 
 /-! ### non-vacuity on a run WITH ice (`Lemmas/FlakeExRun.lean`) -/
